@@ -285,9 +285,9 @@ CHECKS = {
         "valid results; late exceptions and unbounded pool populations "
         "(> 2e6 latent draws in one population) are violations keyed by call "
         "site; all pairs of option values inside five option groups "
-        "(contour, training, flow, optimisation, levels: 601 pairs) are enumerated, a "
+        "(contour, training, flow, optimisation, levels: 700 pairs) are enumerated, a "
         "third per quick run; importance-sampler cases carry the "
-        "configured-stopping-rule monitor. Quick ~300 runs, thorough ~1000.",
+        "configured-stopping-rule monitor. Quick ~350 runs, thorough ~1150.",
         "Iteration cap on every case; wall-clock backstop = inconclusive.",
         "DESIGN.md section 4, C20",
     ),
